@@ -23,17 +23,15 @@ VERIF = os.path.dirname(os.path.dirname(os.path.abspath(__file__)))
 
 
 def package_part(patch_path):
-    """the part of a unified diff that touches the package sources (seeded changes may also edit CHANGELOG, docs, tests)"""
-    import re as _re, tempfile as _tf
+    """the part of a unified diff (as text) that touches the package sources (seeded changes may also edit CHANGELOG, docs, tests);
+    fed to `patch` on standard input, so nothing is left behind in the temporary directory"""
+    import re as _re
     txt = open(patch_path).read()
     parts = _re.split(r"(?m)^(?=diff --git )", txt)
     keep = [p for p in parts if p.startswith("diff --git ") and _re.match(r"diff --git a/cincoconfig/", p)]
-    if not keep or len(keep) == len([p for p in parts if p.startswith("diff --git ")]):
-        return patch_path
-    f = _tf.NamedTemporaryFile("w", suffix=".diff", delete=False)
-    f.write("".join(keep))
-    f.close()
-    return f.name
+    if not keep:
+        return txt
+    return "".join(keep)
 
 
 def load_corpus() -> List[dict]:
@@ -68,7 +66,7 @@ def make_copy(repo: str, edits: List[dict], patch: Optional[str] = None) -> Tupl
     shutil.copytree(os.path.join(repo, "cincoconfig"), dst, ignore=shutil.ignore_patterns("__pycache__"))
     if patch:
         import subprocess
-        r = subprocess.run(["patch", "-p1", "-s", "-i", package_part(patch)], cwd=tmp, capture_output=True, text=True)
+        r = subprocess.run(["patch", "-p1", "-s"], input=package_part(patch), cwd=tmp, capture_output=True, text=True)
         if r.returncode != 0:
             shutil.rmtree(tmp, ignore_errors=True)
             return None, "patch does not apply to the current tree: %s" % (r.stdout + r.stderr).strip()[:120]
